@@ -2177,11 +2177,20 @@ coap_free_endpoint_lkd(coap_endpoint_t *ep) {
       /* If fully allocated and inserted */
       coap_lock_check_locked(ep->context);
       SESSIONS_ITER_SAFE(ep->sessions, session, rtmp) {
-        assert(session->ref == 0);
-        if (session->ref == 0) {
-          coap_handle_event_lkd(ep->context, COAP_EVENT_SERVER_SESSION_DEL, session);
-          coap_session_free(session);
+        if (session->ref != 0) {
+          /*
+           * Everything in the library that can hold a reference (observers,
+           * send queue, async entries) has gone by now, so this is a
+           * reference the application did not release.  The session cannot
+           * outlive its endpoint and context: drop the reference instead of
+           * leaking the session (and skipping its SERVER_SESSION_DEL event).
+           */
+          coap_log_warn("***%s: session still referenced (%u) when endpoint freed\n",
+                        coap_session_str(session), session->ref);
+          session->ref = 0;
         }
+        coap_handle_event_lkd(ep->context, COAP_EVENT_SERVER_SESSION_DEL, session);
+        coap_session_free(session);
       }
       if (coap_netif_available_ep(ep)) {
         /*
